@@ -268,9 +268,33 @@ def correspondence(outcome, tier, seed, targets, rng, n_hist):
         if impl != "%s %s" % (mo, mvs):
             outcome.disagreements.append({"what": "Translator history: writer bytes / verdicts differ from FormatsModel.translate_history",
                                           "case": cases[i][:3000], "request": json_short(req), "implementation": impl[:3000],
-                                          "model": ("%s %s" % (mo, mvs))[:3000]})
+                                          "model": ("%s %s" % (mo, mvs))[:3000], "_req": req})
         if len(req["calls"]) >= 2 or any(c.count(",") for c in cases[i].split(" ")[3:]):
             nontrivial += 1
+    # The property's own reading, on the histories where model and implementation part: every input translated alone
+    # (fresh translator, same source selection and supply mode); when all of them succeed alone, the history must succeed
+    # and write exactly the concatenation of what they wrote alone.
+    suspects = []
+    for d in outcome.disagreements:
+        if d.get("what", "").startswith("Translator history") and d.get("_req") is not None and d["_req"]["to"] != "toml":
+            suspects.append(d["_req"])
+    for req in suspects[:12]:
+        alone = common.harness_batch([{"id": j, "to": req["to"], "calls": [c]} for j, c in enumerate(req["calls"])])
+        res = [shared.session_result(a) for a in alone]
+        if not res or any(r[0] != "ok" for r in res):
+            continue
+        want = "".join(r[2] for r in res if r[2] not in ("-", ""))
+        whole = common.harness_batch([req])[0]
+        got = whole.get("out", "-")
+        got = "" if got == "-" else got
+        oks = [bool(c.get("ok")) for c in whole.get("calls", [])]
+        if got != want or not all(oks):
+            outcome.oracle_failures.append({
+                "what": "a history of inputs to one translator does not produce the concatenation of the translations of each input "
+                        "taken alone (each input succeeds alone)", "to": req["to"], "request": json_short(req),
+                "together_hex": got[:2000], "concatenation_of_single_runs_hex": want[:2000], "verdicts_together": oks})
+    for d in outcome.disagreements:
+        d.pop("_req", None)
     outcome.evaluations += n_single + len(reqs)
     outcome.traces_validated += len(reqs)
     outcome.distinct_nontrivial += nontrivial
